@@ -205,10 +205,24 @@ def run_property(prop, tier, a):
     # ---- deductive units
     targets = props.targets_for(prop)
     units = []
+    assumed_failures = []
     for t in targets:
         ct = C.BY_NAME[t]
         if ct.assumed:
-            assumed.append('%s (assumed contract: %s)' % (t, (ct.note or (ct.func.__doc__ or '')).strip().split('\n')[0][:100]))
+            spot = ''
+            if ct.search and ct.view != 'real':
+                # an assumed leaf is not verified, but its contract is spot-checked natively on an enumerated domain
+                from pyvc import gens as _gens, bounded as _bounded
+                sr = _bounded.run_bounded(ct, _gens.GENS[ct.search](seed, tier), max_fail=1, budget_s=20)
+                spot = '; spot-checked natively on %d inputs' % sr['evaluations']
+                if sr['failures']:
+                    fl = sr['failures'][0]
+                    rec = {'name': '%s/assumed:%s' % (t, fl['clause']), 'kind': 'ensures', 'clause': fl['clause'], 'status': 'sat',
+                           'model_args': fl['args'], 'replay': {'status': 'reproduced', 'observed': fl['observed']}, 'line': None,
+                           'solver': 'native-bounded'}
+                    unit = {'target': t, 'enum': {}, 'file': None}
+                    assumed_failures.append((ob_key(rec, unit), rec, unit))
+            assumed.append('%s (assumed contract: %s%s)' % (t, (ct.note or (ct.func.__doc__ or '')).strip().split('\n')[0][:100], spot))
             continue
         if ct.no_verify:
             continue
@@ -323,6 +337,13 @@ def run_property(prop, tier, a):
                                            'changed), no failing input found' % rec['status']))
                 else:
                     undecided.append((key, '%s (%s)' % (rec['status'], rec.get('reason') or rep.get('status'))))
+    for key, rec, unit in assumed_failures:
+        kf = [f for f in known.get('findings', []) if finding_matches(f, prop, key, rec)]
+        if kf:
+            known_hits.append((kf[0], key, rec))
+        else:
+            path = write_replay(prop, unit, rec, 'the assumed contract of a leaf function fails natively on the real function')
+            violations.append((key, rec, path, ''))
     # a ghost anchor that no case of its function reached means the contract no longer binds
     for tgt, (allg, used) in ghost_use.items():
         for g in sorted(allg - used):
